@@ -421,6 +421,50 @@ Proof.
   rewrite Hps. exists ps. split; [reflexivity | eapply update_tree_parents_hd; exact Hps].
 Qed.
 
+(* unmerged local commits are pivoted out, not dropped: with an up-to-date tree
+   (no pending merges) the old local tip becomes the pending merge *)
+Theorem update_pivots_local_work s i c m o :
+  wf_dag (graph s) = true ->
+  nth_error (cos s) i = Some c -> is_bound c = true ->
+  tip (mbranch s) = Some m -> tip (lbranch c) = Some o -> tparents c = [o] ->
+  is_ancestor (graph s) o m = false ->
+  exists s' c', update s i = (Done, s') /\ nth_error (cos s') i = Some c' /\
+                lbranch c' = mbranch s /\ tparents c' = [m; o].
+Proof.
+  intros W Hc B Hm Ho Hp Hnot.
+  assert (Hne : o <> m).
+  { intros ->. rewrite (is_ancestor_refl (graph s) m W) in Hnot. discriminate. }
+  assert (Hne' : (o =? m) = false) by (apply Nat.eqb_neq; exact Hne).
+  unfold update. rewrite Hc, B, ur_overwrite, Hm. cbn [tip]. rewrite Ho. cbn [is_anc_opt]. rewrite Hnot.
+  unfold update_tree_parents. rewrite Hp. cbn [hd_error opt_eqb tl]. rewrite Hne'.
+  Local Transparent filter_parents.
+  cbn [filter_parents filter_rest tl app opt_list].
+  assert (Hh : memb o (heads (graph s) [m; o]) = true).
+  { apply memb_In. apply heads_spec. split; [right; left; reflexivity|].
+    intros k' [<-|[<-|[]]] Hk; [exact Hnot | contradiction Hk; reflexivity]. }
+  rewrite Hh. cbn [memb existsb]. rewrite Hne'. cbn [orb negb andb].
+  eexists. eexists. split; [reflexivity|]. cbn.
+  split; [rewrite (nth_upd_same _ _ _ _ (nth_upd_same _ _ _ _ Hc)); reflexivity|]. cbn.
+  split; [rewrite <- Hm; apply branch_eta | reflexivity].
+Qed.
+Local Opaque filter_parents.
+
+(* ... but when the tree was left behind its branch (an interrupted commit wrote the
+   branch tip and not the tree), the old tip is not recorded anywhere *)
+Definition stale_tree_witness : sys := run (init [false; true; false] true) [Commit 1 true (Some 1)].
+
+Theorem update_keeps_local_work_refuted :
+  exists s c s' c',
+    s = stale_tree_witness /\ nth_error (cos s) 1 = Some c /\ is_bound c = true /\
+    tip (lbranch c) = Some 1 /\ is_anc_opt (graph s) (Some 1) (tip (mbranch s)) = false /\
+    update s 1 = (Done, s') /\ nth_error (cos s') 1 = Some c' /\
+    tip (lbranch c') = Some 0 /\ tparents c' = [0].
+Proof.
+  eexists. eexists. eexists. eexists.
+  split; [reflexivity|]. split; [reflexivity|]. split; [reflexivity|]. split; [reflexivity|].
+  split; [reflexivity|]. split; [reflexivity|]. split; [reflexivity|]. split; reflexivity.
+Qed.
+
 (* the refutation of the unguarded statement: a --local commit in a checkout of
    an empty master, then update: the local branch stays ahead *)
 Definition empty_master_witness : sys := run (init [true] false) [Commit 0 true None].
